@@ -70,6 +70,7 @@ pub struct WebSocketFramed<T, C, E, D> {
     encode_item: PhantomData<E>,
     decode_item: PhantomData<D>,
     buffer: Option<BytesMut>,
+    readable: bool,
 }
 
 impl<T, C, E, D> Unpin for WebSocketFramed<T, C, E, D> {}
@@ -80,7 +81,7 @@ where
     C: Encoder<E, Error = anyhow::Error> + Decoder<Item = D, Error = anyhow::Error> + Unpin,
 {
     pub fn new(stream: WebSocketStream<T>, codec: C) -> Self {
-        Self { stream, codec, encode_item: PhantomData, decode_item: PhantomData, buffer: None }
+        Self { stream, codec, encode_item: PhantomData, decode_item: PhantomData, buffer: None, readable: false }
     }
 }
 
@@ -94,10 +95,25 @@ where
 
     fn poll_next(mut self: Pin<&mut Self>, cx: &mut Context<'_>) -> Poll<Option<Self::Item>> {
         loop {
+            // deliver every frame that is already buffered before waiting for the next message
+            if self.readable {
+                if let Some(mut payload) = self.buffer.take() {
+                    let decoded = self.codec.decode(&mut payload);
+                    if !payload.is_empty() {
+                        self.buffer = Some(payload);
+                    }
+                    match decoded {
+                        Ok(Some(item)) => return Poll::Ready(Some(Ok(item))),
+                        Ok(None) => {}
+                        Err(e) => return Poll::Ready(Some(Err(e))),
+                    }
+                }
+                self.readable = false;
+            }
             match ready!(self.stream.poll_next_unpin(cx)) {
                 Some(Ok(msg)) => {
                     if msg.is_binary() || msg.is_text() {
-                        let mut payload = match self.buffer.take() {
+                        let payload = match self.buffer.take() {
                             Some(buffer) => {
                                 let msg_payload = msg.as_payload();
                                 let mut payload = BytesMut::with_capacity(buffer.len() + msg_payload.len());
@@ -107,15 +123,8 @@ where
                             }
                             None => BytesMut::from(msg.into_payload()),
                         };
-                        let decoded = self.codec.decode(&mut payload);
-                        if !payload.is_empty() {
-                            self.buffer = Some(payload);
-                        }
-                        match decoded {
-                            Ok(Some(item)) => return Poll::Ready(Some(Ok(item))),
-                            Ok(None) => return Poll::Pending,
-                            Err(e) => return Poll::Ready(Some(Err(e))),
-                        }
+                        self.buffer = Some(payload);
+                        self.readable = true;
                     }
                     continue;
                 }
